@@ -155,7 +155,10 @@ def catalogue():
                typing.Optional[typing.List[int]], list[int] | None, typing.Literal[1], typing.Literal["a", None], typing.Literal[1, 2, 3],
                typing.Final[int], typing.Final[typing.List[int]], typing.ClassVar[int], typing.ClassVar[typing.Dict[str, int]], typing.Any, T, TB,
                typing.Callable, cabc.Callable, typing.Callable[[int], str], typing.Callable[..., typing.Any], None, Ellipsis, inspect.Parameter.empty,
-               typing.ForwardRef("int"), typing.Generic, typing.Protocol]
+               typing.ForwardRef("int"), typing.Generic, typing.Protocol,
+               # order-permuted twins of the unions / literals above (equal and hash-equal to them, different get_args order)
+               typing.Union[str, int], str | int, typing.Union[None, int], None | int, typing.Union[str, None, int], typing.Literal[3, 2, 1],
+               typing.Literal[None, "a"], typing.Optional[typing.List[int]], None | list[int], typing.Union[None, typing.List[int]]]
     return m, classes, abcs, tbare, param, special
 
 
@@ -494,7 +497,7 @@ def call(pred, x):
         return ("raised", f"{type(e).__name__}: {e}"[:160])
 
 
-def judge_type(sh, pname, x, label, oracle):
+def judge_type(sh, pname, x, label, oracle, twin_warmed=False):
     pred = getattr(inspection, pname, None)
     if pred is None:
         sh.inconclusive.append(f"predicate {pname} no longer exists") if len(sh.inconclusive) < 5 else None
@@ -517,7 +520,8 @@ def judge_type(sh, pname, x, label, oracle):
         return
     sh.count("judged")
     if in_domain and not same_answer(got[1], want):
-        sh.violation("predicate-disagrees", predicate=pname, obj=label, expected=short(want, 120), got=short(got[1], 120))
+        sh.violation("predicate-disagrees", predicate=pname, obj=label, expected=short(want, 120), got=short(got[1], 120), twin_warmed=twin_warmed,
+                     union_object=typing.get_origin(x) in (typing.Union, types.UnionType))
     # stability: warm repeat and after cache_clear
     sh.count("stability_checked")
     again = call(pred, x)
@@ -680,9 +684,30 @@ def run_shard(sh):
     everything = objs + wrapped
     work = [(p, o) for p in TYPE_PREDICATES for o in everything]
     mine = [w for idx, w in enumerate(work) if idx % sh.nshards == sh.shard]
+    # equal-but-distinct catalogue objects (order-permuted unions / literals, Optional[X] vs X | None): the work is sharded by
+    # (predicate, object), so a twin is put in front of each judged object here - an equality-keyed cache then answers for the twin
+    unionish = [(lb, o) for lb, o in everything if typing.get_origin(o) in (typing.Union, types.UnionType, typing.Literal)]
+    twins = {}
+    for lb, o in unionish:
+        tw = []
+        for lb2, o2 in unionish:
+            try:
+                if o2 is not o and o2 == o:
+                    tw.append(o2)
+            except Exception:  # noqa: BLE001
+                pass
+        if tw:
+            twins[id(o)] = tw
     for pname, (label, x) in mine:
         sh.see("objects", label)
-        judge_type(sh, pname, x, label, TYPE_PREDICATES[pname])
+        warmed = False
+        if id(x) in twins:
+            pred = getattr(inspection, pname, None)
+            for y in twins[id(x)]:
+                call(pred, y)
+                warmed = True
+                sh.count("twin_warmed_judgements")
+        judge_type(sh, pname, x, label, TYPE_PREDICATES[pname], twin_warmed=warmed)
     if sh.shard == 0:
         judge_instances(sh)
         judge_signatures(sh)
